@@ -242,6 +242,16 @@ func (s *Session) Check(extra *term.Term, syms []*term.Term) (Result, map[string
 	if res == Unknown {
 		s.Unknowns++
 	}
+	if d := time.Since(t0); d > 2*time.Second && os.Getenv("GOSYM_SLOWQ") != "" {
+		ex := "<none>"
+		if extra != nil {
+			ex = extra.String()
+			if len(ex) > 400 {
+				ex = ex[:400]
+			}
+		}
+		fmt.Fprintf(os.Stderr, "SLOWQ %.1fs %s: %s\n", d.Seconds(), res, ex)
+	}
 	s.Time += time.Since(t0)
 	return res, model
 }
